@@ -22,6 +22,8 @@ def gen_rulebook(rng, depth=3, prefix="undo", allow=("global", "ordered", "rewri
         # first letters include the letters of the negation words (u,n,d,o): a removal template built by character
         # stripping instead of word stripping shows up only there
         first = "%s%s%d" % (rng.choice(("abc"[lvl % 3], "dnu"[lvl % 3], "o")), tag, i)
+        if rng.random() < 0.1:
+            first = prefix + first  # a word that merely begins with the negation word (notify, undoable, -x)
         toks = [first]
         shape = rng.random()
         if shape < 0.25:
@@ -46,9 +48,9 @@ def gen_rulebook(rng, depth=3, prefix="undo", allow=("global", "ordered", "rewri
                 r.children = [RB.Rule("~", glob=True, rewrite=True)]
             elif "ordered" in allow and sub < 0.35:
                 if rng.random() < 0.5:
-                    r.children = [RB.Rule("o%d ~" % lvl, ordered=True)]
+                    r.children = [RB.Rule("q%d ~" % lvl, ordered=True)]
                 else:
-                    r.children = [RB.Rule("o%d *" % lvl, ordered=True, children=[RB.Rule("~")])]
+                    r.children = [RB.Rule("q%d *" % lvl, ordered=True, children=[RB.Rule("~")])]
                 if rng.random() < 0.5:
                     r.children.append(RB.Rule("p%d *" % lvl))
             else:
